@@ -29,6 +29,12 @@ def cases(tier, rng):
         n = rng.choice([2, 3, 4])
         g = ref.Gen(rng, n=n, use_sub=(i % 3 == 0), bracket=(i % 3 == 0))
         p = g.program()
+        if i % 4 == 1:
+            # a subcircuit block inside a macro that is itself called from a macro (the annotation and its count must
+            # survive both levels of substitution), with a count given by a parameter of the outer macro
+            p["macros"].append(("msb", ["x", "c"], ("seq", [("sub", "c", [("gate", "X", [("id", "x")])]), ("gate", "H", [("id", "x")])])))
+            p["macros"].append(("mso", ["y"], ("seq", [("gate", "msb", [("id", "y"), ("num", rng.choice([0, 2, 3]))]), ("gate", "X", [("id", "y")])])))
+            p["body"].append(("gate", "mso", [("q", "q", 0)]))
         text = ref.to_text(p)
         yield text, {"prog": p, "text": text}, has_macro_call(p)
 
